@@ -47,7 +47,8 @@ def fs_events(p):
             elif n in ("shutil.copy", "shutil.copyfile", "shutil.copy2"):
                 out.append(("copy", e, loops))
             elif n in ("os.remove", "os.unlink", "shutil.move", "os.replace", "open",
-                       "os.truncate"):
+                       "os.truncate", "os.open", "os.mknod", "os.mkfifo", "os.link",
+                       "os.symlink", "io.open", "os.utime"):
                 out.append(("fsother", e, loops))
         elif k in ("script", "sql_dynamic"):
             out.append(("script", e, loops))
@@ -299,7 +300,10 @@ def _new_file(ctx, p, fs, targets):
                        "went through %s (need %s)" % (order, want),
                        None if ok2 else render_path(p.events))
         if k in ("copy", "fsother") and first_target is None:
-            if any(a == DBFILE for a in e["args"][1:]):
+            creates_at_first_arg = e["name"] in ("os.open", "os.mknod", "os.mkfifo", "open",
+                                                 "io.open", "os.utime")
+            if any(a == DBFILE for a in e["args"][1:]) or \
+                    (creates_at_first_arg and e["args"] and e["args"][0] == DBFILE):
                 first_target = (k, e)
         if temp is not None and first_target is None:
             if k == "script" and handle_path(e["handle"]) == temp:
